@@ -354,6 +354,57 @@ func (in *Instance) RunTx(typeURL string, wire []byte, faults []bool) (out TxRes
 	return
 }
 
+// RunBatch executes several messages as ONE transaction: one branch, in order, written back only if all succeed.
+func (in *Instance) RunBatch(txs [][2]any, faults []bool) (out TxResult, inner []TxResult) {
+	in.L.faults, in.L.ncall, in.L.calls = faults, 0, nil
+	in.writes = nil
+	cacheCtx, write := in.ctx.CacheContext()
+	in.recOn = true
+	defer func() {
+		in.recOn = false
+		out.Calls = in.L.calls
+		out.Writes = in.writes
+		if r := recover(); r != nil {
+			out.Res, out.Panic = "panic", fmt.Sprint(r)
+			out.Events = nil
+		}
+	}()
+	out.Res = "ok"
+	for _, tx := range txs {
+		typeURL, wire := tx[0].(string), tx[1].([]byte)
+		msgI, err := in.reg.Resolve(typeURL)
+		if err != nil {
+			panic(fmt.Sprintf("harness: cannot resolve %s: %v", typeURL, err))
+		}
+		one := TxResult{Res: "ok"}
+		ncalls := len(in.L.calls)
+		if err := in.cdc.Unmarshal(wire, msgI); err != nil {
+			one.Res, one.Err = "err", "undecodable: "+err.Error()
+		} else {
+			msg := msgI.(sdk.Msg)
+			res, err := in.msr.Handler(msg)(cacheCtx, msg)
+			if err != nil {
+				one.Res, one.Err = "err", err.Error()
+			} else {
+				one.Events = res.GetEvents()
+				if len(res.MsgResponses) == 1 {
+					one.RespBz = res.MsgResponses[0].Value
+				}
+			}
+		}
+		one.Calls = append([]LedgerCall{}, in.L.calls[ncalls:]...)
+		inner = append(inner, one)
+		if one.Res != "ok" {
+			out.Res, out.Err = "err", one.Err
+			out.Events = nil
+			return
+		}
+		out.Events = append(out.Events, one.Events...)
+	}
+	write()
+	return
+}
+
 // ---- materialising an abstract state -----------------------------------------------------
 
 func seti(v any) int {
